@@ -341,18 +341,86 @@ objects ANYWHERE (`dtype.hasobject`: a plain object array, or a structured / sub
 whose `kind` is `'V'`) is never dumped to the temp folder to be memory-mapped in the worker, whatever `max_nbytes`
 and its size: it is pickled by value. (Its dump has `allow_mmap=False`, so `load_temporary_memmap` would get a
 plain array back and fail.) -/
-theorem object_arrays_are_never_memmapped (registeredType : Bool) (max_nbytes : Option Nat) (nbytes : Nat) :
-    forwardReduce registeredType false true max_nbytes nbytes = .plainPickle := by
+theorem object_arrays_are_never_memmapped (registeredType : Bool) (max_nbytes : Option Nat) (nbytes : Nat)
+    (mmapModeNone : Bool) :
+    forwardReduce registeredType false true max_nbytes nbytes mmapModeNone = .plainPickle := by
   cases registeredType <;> simp [forwardReduce]
 
 /-- The whole decision: an argument is dumped and memory-mapped exactly when it is an exact `ndarray`/`memmap`,
-not memmap-backed, object-free, `max_nbytes` is not `None` and `nbytes > max_nbytes` (strictly); a memmap-backed
-one reuses its file whatever its size. -/
-theorem forward_decision (rt bk ho : Bool) (max_nbytes : Option Nat) (nbytes : Nat) :
-    (forwardReduce rt bk ho max_nbytes nbytes = .dumpAndMemmap
-      ↔ rt = true ∧ bk = false ∧ ho = false ∧ ∃ m, max_nbytes = some m ∧ m < nbytes)
-    ∧ (forwardReduce rt bk ho max_nbytes nbytes = .reuseBacking ↔ rt = true ∧ bk = true) := by
-  cases rt <;> cases bk <;> cases ho <;> cases max_nbytes <;> simp [forwardReduce] <;> split <;> simp
+not memmap-backed, object-free, `mmap_mode` is not `None`, `max_nbytes` is not `None` and `nbytes > max_nbytes`
+(strictly); a memmap-backed one reuses its file whatever its size. -/
+theorem forward_decision (rt bk ho : Bool) (max_nbytes : Option Nat) (nbytes : Nat) (mmapModeNone : Bool) :
+    (forwardReduce rt bk ho max_nbytes nbytes mmapModeNone = .dumpAndMemmap
+      ↔ rt = true ∧ bk = false ∧ ho = false ∧ mmapModeNone = false ∧ ∃ m, max_nbytes = some m ∧ m < nbytes)
+    ∧ (forwardReduce rt bk ho max_nbytes nbytes mmapModeNone = .reuseBacking ↔ rt = true ∧ bk = true) := by
+  cases rt <;> cases bk <;> cases ho <;> cases mmapModeNone <;> cases max_nbytes <;> simp [forwardReduce] <;> split <;> simp
+
+/-- **mmap_mode_none_disables_memmapping** (repair F58). With `Parallel(mmap_mode=None)` — documented as "None
+will disable memmapping" — no argument is ever dumped to the temp folder: an array that is not already backed by a
+user memmap is pickled by value whatever `max_nbytes` and its size. Hence every dumped argument is loaded in the
+worker with a real mode, for which `load_temporary_memmap` gets an `np.memmap` back. -/
+theorem mmap_mode_none_disables_memmapping (rt ho : Bool) (max_nbytes : Option Nat) (nbytes : Nat) :
+    forwardReduce rt false ho max_nbytes nbytes true = .plainPickle
+    ∧ ∀ bk md, forwardReduce rt bk ho max_nbytes nbytes md = .dumpAndMemmap → loadTemporaryMemmapOk md = true := by
+  constructor
+  · cases rt <;> cases ho <;> simp [forwardReduce]
+  · intro bk md h
+    cases md
+    · rfl
+    · cases rt <;> cases bk <;> cases ho <;> simp [forwardReduce] at h
+
+/-- F58 witness (the code before the repair): `Parallel(max_nbytes=1000, mmap_mode=None)` and a 2400-byte float
+array: it is dumped although `mmap_mode` is `None`, and the worker's `load_temporary_memmap(filename, None, …)`
+cannot give the task an array (`AttributeError` on `obj.filename`: BrokenProcessPool). -/
+theorem prefix_mmap_mode_none_counterexample :
+    forwardReducePreF58 true false false (some 1000) 2400 true = .dumpAndMemmap
+    ∧ loadTemporaryMemmapOk true = false
+    ∧ forwardReduce true false false (some 1000) 2400 true = .plainPickle := by
+  decide
+
+/-! ## the temporary dumps over a history of calls (`_memmaped_arrays`, `os.path.exists`)
+
+FULL statement wanted by the property ("large arrays passed to process workers through automatic memmapping
+present the same values to the task"): `∀ h, runHistory [] h = h.map (·.vals)`. It is FALSE of the code (F57, a
+design trade-off: the dump is keyed by the identity of the array object and never refreshed inside one temp
+folder): `history_stale_counterexample`. The fragment that holds: `history_faithful_partial` (no object changes
+its values between two dispatches in the same folder), with its two practical instances
+`fresh_context_is_faithful` (an unmanaged `Parallel`: a new folder per call) and `new_object_is_faithful`. -/
+
+/-- **F57 witness.** `with Parallel(n_jobs=2, max_nbytes=1000) as p:` (one folder, 0), the same array object (7)
+dispatched with values 1, mutated in place, dispatched with values 2: the second call's task sees 1. The same two
+dispatches from an unmanaged `Parallel` (folders 0 and 1) see 1 then 2. -/
+theorem history_stale_counterexample :
+    runHistory [] [⟨0, 7, 1⟩, ⟨0, 7, 2⟩] = [1, 1]
+    ∧ runHistory [] [⟨0, 7, 1⟩, ⟨1, 7, 2⟩] = [1, 2] := by
+  decide
+
+/-- **history_faithful_partial.** If the files already on disk hold the values their objects still have, and no
+array object is dispatched twice in one folder with different values (it is not mutated in place between calls of
+one managed `Parallel`), then every task of the history sees exactly the values its argument has at dispatch
+time. -/
+theorem history_faithful_partial (h : List Dispatch) (fs : TempFiles)
+    (hfs : ∀ d ∈ h, ∀ v, fs.lookup (d.ctx, d.obj) = some v → v = d.vals)
+    (hconst : ∀ d ∈ h, ∀ e ∈ h, d.ctx = e.ctx → d.obj = e.obj → d.vals = e.vals) :
+    runHistory fs h = h.map (·.vals) :=
+  runHistory_faithful h fs hfs hconst
+
+/-- A dispatch into a folder that holds no dump of that object (every call of an unmanaged `Parallel`; the first
+dispatch of a new object) dumps and shows the dispatch-time values. -/
+theorem fresh_context_is_faithful (fs : TempFiles) (d : Dispatch) (hnew : fs.lookup (d.ctx, d.obj) = none) :
+    (dispatchStep fs d).2 = d.vals ∧ (dispatchStep fs d).1.lookup (d.ctx, d.obj) = some d.vals := by
+  simp [dispatchStep, hnew]
+
+/-- Replacing the array by a NEW object (an equal copy, a freshly built array) between calls is always safe: a
+history whose dispatches all have distinct (folder, object) pairs is faithful whatever the values. -/
+theorem new_object_is_faithful (h : List Dispatch)
+    (hdistinct : (h.map (fun d => (d.ctx, d.obj))).Nodup) :
+    runHistory [] h = h.map (·.vals) := by
+  apply history_faithful_partial
+  · intro d _ v hv; simp [List.lookup] at hv
+  · intro d hd e he hc ho
+    have := nodup_key_eq h hdistinct d hd e he hc ho
+    rw [this]
 
 /-! ## PRE-FIX witnesses: the three defects of the code BEFORE b514cf6 / 5cddabe, on the `…PreFix` definitions,
 and the same inputs on the code as it is now -/
